@@ -375,9 +375,8 @@ def obligations(tier):
         pre_n, pre_cfg = 1, dict(CFG_QUICK, prestate=dict(PRE_ALL, rev=False))
         ord_n = 4
     else:
-        hist = [(3, CFG_FULL, "history-from-empty"),
-                (4, dict(CFG_QUICK, pool=["h0", "tcp"]), "history-from-empty-2flows")]
-        pre_n, pre_cfg = 2, dict(CFG_QUICK, prestate=dict(PRE_ALL, rev=False, filters=[0, 1], min_stored=2))
+        hist = [(3, CFG_FULL, "history-from-empty")]
+        pre_n, pre_cfg = 2, dict(CFG_QUICK, prestate=dict(PRE_ALL, rev=False, orders=["time", "size"], filters=[0, 1], min_stored=2))
         ord_n = 5
     obs = []
     for n, cfg, name in hist:
